@@ -2506,6 +2506,9 @@ class Trimesh(Geometry3D):
                     self.face_normals, matrix=matrix, translate=False
                 )
             )
+            # stored without going through the cache setter: cached
+            # arrays are read-only as copies may share them
+            self._cache.cache["face_normals"].flags.writeable = False
 
         # preserve vertex normals if we have them stored
         if has_rotation and "vertex_normals" in self._cache:
@@ -2514,6 +2517,7 @@ class Trimesh(Geometry3D):
                     self.vertex_normals, matrix=matrix, translate=False
                 )
             )
+            self._cache.cache["vertex_normals"].flags.writeable = False
 
         # if transformation flips winding of triangles
         if has_rotation and transformations.flips_winding(matrix):
